@@ -32,7 +32,7 @@ ASSUMPTIONS = [
     "a frame is recognised by the first low level on the line while no frame is in progress",
     "bounded promptness chosen by the harness: a queued byte starts within 3 cycles after the line is free",
 ]
-BOUNDS = "BMC from reset; UARTTransmitter divisor 1,2,3,5 (quick 1,2 to two frames, 3 to one frame + start of the next), " \
+BOUNDS = "BMC from reset; UARTTransmitter divisor 1,2,3,5 (quick: 1,2 to two frames), " \
          ">= 2 back-to-back/spaced frames; UARTMultibyteTransmitter byte_width 2 (divisor 1,2) and 3 (divisor 1), two words " \
          "(quick: byte_width 2, divisor 1)"
 OUTSIDE = "divisors above 5 (same counter logic, only the reload constant differs); unbounded streams (bounded by K); " \
@@ -193,23 +193,36 @@ class UartHarness(Harness):
         return dict(valid=int(rng.random() < 0.6), payload=rng.getrandbits(8 * self.bw))
 
 
+FRAME = ["idle_high", "start_bit", "data_bits", "stop_bit"]
+HANDSHAKE = ["accept_only_next", "prompt"]
+
+
+def _families(qs, tag, f, K, desc, multi, full_covers=True):
+    """two assertion families + one cover query per configuration, each solved in a single process"""
+    covers = ["frame_done", "mixed_byte"] + (["back_to_back", "spaced"] if full_covers else []) + \
+             (["second_word", "accept_during_last_byte"] if multi and full_covers else [])
+    qs.append(Query(f"bmc_{tag}_frame", f, K, timeout=900, split=False, asserts=FRAME, covers=covers,
+                    desc=desc + ": frame format family (line level in every cycle)"))
+    qs.append(Query(f"bmc_{tag}_handshake", f, K, timeout=900, split=False, covers=[],
+                    asserts=HANDSHAKE + ([] if multi else ["idle_flag"]),
+                    desc=desc + ": acceptance / promptness family"))
+
+
 def queries(tier):
     qs = []
     quick = tier == "quick"
     # (divisor, K): two back-to-back frames need 20*divisor+3 cycles
-    single = [(1, 26), (2, 46), (3, 40)] if quick else [(1, 36), (2, 66), (3, 66), (5, 106)]
+    single = [(1, 26), (2, 44)] if quick else [(1, 36), (2, 66), (3, 66), (5, 106)]
     for div, K in single:
         f = (lambda div=div: UartHarness(div))
-        covers = None if K >= 20 * div + 4 else ["frame_done", "mixed_byte"]
-        qs.append(Query(f"bmc_uart_d{div}", f, K, timeout=900, covers=covers,
-                        desc=f"UARTTransmitter divisor={div}: valid/payload free every cycle"))
+        _families(qs, f"uart_d{div}", f, K, f"UARTTransmitter divisor={div}: valid/payload free every cycle", False)
     # (byte_width, divisor, K): two words need 2*bw*10*div + 4 cycles
     multi = [(2, 1, 46)] if quick else [(2, 1, 48), (2, 2, 88), (3, 1, 68)]
     for bw, div, K in multi:
         f = (lambda bw=bw, div=div: UartHarness(div, bw))
-        qs.append(Query(f"bmc_multi_w{bw}_d{div}", f, K, timeout=900,
-                        desc=f"UARTMultibyteTransmitter byte_width={bw} divisor={div}: valid/payload free every cycle"))
-    qs.append(Query("cosim_uart_d3", lambda: UartHarness(3), 0, kind="cosim", cosim_cycles=300 if quick else 2000))
+        _families(qs, f"multi_w{bw}_d{div}", f, K,
+                  f"UARTMultibyteTransmitter byte_width={bw} divisor={div}: valid/payload free every cycle", True)
+    qs.append(Query("cosim_uart_d3", lambda: UartHarness(3), 0, kind="cosim", cosim_cycles=150 if quick else 2000))
     qs.append(Query("cosim_multi_w2_d2", lambda: UartHarness(2, 2), 0, kind="cosim",
-                    cosim_cycles=300 if quick else 2000))
+                    cosim_cycles=150 if quick else 2000))
     return qs
